@@ -25,22 +25,36 @@ ASSUMPTIONS = [
     "with tolerance 1e-6 ms, tempo values with relative tolerance 1e-9; all discrete structure must be equal",
     "the decimal grammar modelled for float()/int() is [+-]digits[.digits][e[+-]digits]; inf/nan/underscores are outside the model",
     "non-empty #STOPS is outside the model and the property",
-    "dialect assumed by the domain predicate (Coq: dialect_ok): comments are whole lines, free of ; : , and placed before a tag or "
-    "inside note data; rows carry no blanks; header values carry no colon; #OFFSET and #BPMS precede #STOPS",
+    "dialect required by the domain predicate of the whole-file theorem (Coq: Formats/SMReadDom.v c02_domb, evaluated as wf on every "
+    "text): no ';' ':' ',' inside a comment, comments are whole lines placed before a tag or inside note data, nothing but blanks "
+    "after the last ';', a tag is '#' followed by non-blank characters other than '#' and '/', header values carry no colon and no "
+    "comment, rows carry no blanks, one #OFFSET and one #BPMS item both before any #STOPS item, #STOPS empty, "
+    "#OFFSET/#SAMPLESTART/#SAMPLELENGTH/#BPMS values parse; each clause excludes a corner on which reader and format disagree "
+    "(seven _refuted theorems with concrete texts, replayed on the real code)",
 ]
 TRUSTED = ["harness/tables/sm.py (live SMConst / METRONOME / MAX_SNAP / MAX_KEYS / chart-type tables)"]
 MANIFEST = dict(
-    text="Machine-checked theorems (Coq 8.16.1) about an executable Gallina model of SMMapSet.read (token split, header dispatch, "
-         "#BPMS parsing, 4-beat slicing, Fraction(j,len), per-column head/tail pairing, times through the C10 timing-map model): "
-         "slicing places row r of n at beat 4r/n for every n divisible by 4; head/tail pairing equals 'close the open head' when one "
-         "head is open per column; one chart per #NOTES token in file order; and, lifting C10's closed form offsets_on_grid_b, every "
-         "object returned by _read_notes sits at Integrate.time_of of its row's Snap with hold length = tail time - head time, for every "
-         "tempo script in the C10 domain. Whole-file agreement with the reference interpreter sm_denote (token-level parser equivalence, "
-         "completeness) is not proved for all texts (sm_read_denotes is _partial); it is established per run by in-Coq evaluation "
-         "(model = implementation within 1e-6 ms, sm_denote evaluated on the implementation's output, C10 domain checked on every text).",
+    text="Machine-checked whole-file theorem (Coq 8.16.1, C02_sm_read_denotes, closed under the global context) about an executable "
+         "Gallina model of SMMapSet.read (';' token split + strip, '#NOTES:' dispatch, _read_metadata incl. the rfind('#') comment hack, "
+         "_read_bpms, SMMap.read, 4-beat slicing, Fraction(j,len), symbol switch, per-column head/tail pairing, _expand, times through the "
+         "C10 timing-map model, tempo list through the C11 reseating model): for EVERY .sm text in the decidable domain c02_domb (a boolean "
+         "predicate on the text: well formed for the reference semantics sm_denote, rows per measure a multiple of 4, #BPMS beats distinct "
+         "on the 1/48 grid, reader dialect, header items) the read succeeds and returns exactly what sm_denote defines: one chart per "
+         "#NOTES item in file order with its header fields; per kind (hits, holds, rolls, mines, lifts, fakes, keysounds) a permutation of "
+         "the denoted objects (column, time, length) - nothing invented, nothing dropped - with times = Integrate.time_of of the row "
+         "position (beat 4m+4r/n) under the #BPMS script from -#OFFSET, holds/rolls paired with the closing '3'; every tempo change in each "
+         "chart's tempo list at its ms position; hence the oracle read_spec (tolerance 0) accepts the model's result. Proved bottom-up: "
+         "equivalence of the two token-level parsers on the dialect (comment removal commutes with the ';' ':' ',' splits), row extraction, "
+         "simulation of the reference interpreter by the reader loop (completeness), the C10 domain DERIVED from the 1/48 grid (table "
+         "obligation: every k/48 is a snapper fraction), C11 reseating keeps every tempo time, strict monotonicity of time for key "
+         "distinctness. Seven _refuted theorems show the statement is false over the former, laxer domain (corners of the comment/tag "
+         "dialect; the real code behaves like the model on each). Each run additionally evaluates in Coq: model = implementation (1e-6 ms) "
+         "and read_spec on the implementation's output for every generated text in c02_domb.",
     note="Trusted: Coq kernel+VM, generator/serialiser, table translator; binary64 rounding measured (tolerance 1e-6 ms) not proved. "
-         "Former finding sm-read-no-stops-tag (a text without a #STOPS tag raised AttributeError) is fixed by d64b5ab; the old behaviour "
-         "survives only as a named OLD variant for the _refuted witness; the runner accepts the current behaviour only.",
+         "Nothing is _partial any more. Robustness corners of the pinned reader found while proving (all outside the claimed dialect, "
+         "recorded as _refuted theorems, not repaired): a ';' inside a comment makes the rest of the comment line an item; a comment after "
+         "the last ';' ending in a known tag raises IndexError; '#X#NOTES:' is taken for a chart (IndexError); '#OFFSET :v' is obeyed; "
+         "a malformed overridden number raises. Former finding sm-read-no-stops-tag is fixed by d64b5ab (OLD variant kept for its witness).",
     technique="Coq proof over executable model + vm_compute correspondence against the implementation + reference interpreter",
     design="4/C02")
 
